@@ -133,20 +133,30 @@ class Driver:
         raise DriverError(r[4:], line)
 
     def ask_many(self, lines):
-        """pipelined requests (avoids per-line round trips); returns list of payload | DriverError"""
+        """pipelined requests; a writer thread feeds stdin while this thread reads the replies (long
+        requests/replies would otherwise deadlock on the pipe buffers); returns payload | DriverError"""
+        import threading
+        lines = list(lines)
+        for ln in lines:
+            assert '\n' not in ln
+        def feed():
+            try:
+                for i in range(0, len(lines), 100):
+                    self.p.stdin.write('\n'.join(lines[i:i + 100]) + '\n')
+                    self.p.stdin.flush()
+            except BrokenPipeError:
+                pass
+        th = threading.Thread(target=feed, daemon=True)
+        th.start()
         out = []
-        CH = 200
-        for i in range(0, len(lines), CH):
-            chunk = lines[i:i + CH]
-            self.p.stdin.write('\n'.join(chunk) + '\n')
-            self.p.stdin.flush()
-            for ln in chunk:
-                r = self.p.stdout.readline()
-                self.requests += 1
-                if not r:
-                    raise RuntimeError('driver died on: ' + ln[:200])
-                r = r.rstrip('\n')
-                out.append(r[3:] if r.startswith('ok') else DriverError(r[4:], ln))
+        for ln in lines:
+            r = self.p.stdout.readline()
+            self.requests += 1
+            if not r:
+                raise RuntimeError('driver died on: ' + ln[:200])
+            r = r.rstrip('\n')
+            out.append(r[3:] if r.startswith('ok') else DriverError(r[4:], ln))
+        th.join()
         return out
 
     def close(self):
